@@ -2093,6 +2093,7 @@ func runC16(res *hx.Result, rng *hx.Rng, tier string, outdir string) {
 		"indices, call/post × method/terminate/registerEvent/unknown action to live, removed, pending and unknown indices, mailboxes held by a gate and " +
 		"released, signal emission; every case ends with a call to every live and every removed object; directed cases for every plan of 2 or 3 lives of one object value " +
 		"(failed activation / removed / own terminate / removed twice, same or new index, subscribers in every life); one object value live under two identifiers (two services, or twice in one); " +
+		"real proxies of the client library subscribing (the same signal twice through one connection, several connections, two signals) to objects added on the server or through a service reference (ids from 2^31), ended by Remove / terminate action / activation.Terminate; " +
 		"non-trivial = a call or a subscription happens after a removal; distinct by sha256 of the operation list"
 	nCases := 120
 	if tier == "thorough" {
@@ -2146,6 +2147,7 @@ func runC16(res *hx.Result, rng *hx.Rng, tier string, outdir string) {
 	cf.Flush()
 	c16Shared(res, rng, map[bool]int{false: 12, true: 60}[tier == "thorough"])
 	c16HookReenters(res, rng, map[bool]int{false: 6, true: 30}[tier == "thorough"])
+	c16Clients(res, rng, map[bool]int{false: 24, true: 240}[tier == "thorough"])
 	rounds := 40
 	if tier == "thorough" {
 		rounds = 400
